@@ -169,7 +169,9 @@ def eval_impulses(d):
             if abs(w) > 1e-9:
                 got_band[(x, y)] = w
     multi = {p: w for p, w in got_band.items() if abs(w - 1.0) > 1e-6}
-    if set(got_band) != band:
+    # whether the window of the very last vertex belongs to the band is a convention: both are accepted
+    endw = {(int(math.ceil(last[0]) + ii), int(math.ceil(last[1]) + kk)) for ii in range(-layers, layers + 1) for kk in range(-layers, layers + 1)}
+    if set(got_band) != band and not (band <= set(got_band) <= (band | endw)):
         viol.append({"what": "pixels contributing to the integrated intensity are not the layered band around the polyline",
                      "detail": {"extra": sorted(set(got_band) - band)[:6], "missing": sorted(band - set(got_band))[:6], "poly": name, "layers": layers}})
     elif multi:
